@@ -30,12 +30,21 @@ from fractions import Fraction as Fr
 _S = {}
 
 
+class TaskFailure(Exception):
+    pass
+
+
+EXC = [ValueError, KeyError, ZeroDivisionError, TaskFailure, RuntimeError]
+
+
 def fr(x):
     x = Fr(x)
     return str(x.numerator) if x.denominator == 1 else f'{x.numerator}/{x.denominator}'
 
 
 def num(s):
+    if s == 'inf':
+        return float('inf')
     f = Fr(s)
     v = f.numerator / f.denominator
     assert Fr(v) == f, f'not exact in binary64: {s}'
@@ -147,7 +156,7 @@ class Case:
                 if res[0] == 'r':
                     return num(res[2:])
                 if res == 'x':
-                    raise ValueError(f'task{tid}')
+                    raise EXC[tid % len(EXC)](f'task{tid}')
                 if res == 'n':
                     return 'str'
                 return None
@@ -161,7 +170,7 @@ class Case:
                     if res[0] == 'r':
                         inval = yield num(res[2:])
                     elif res == 'x':
-                        raise ValueError(f'task{tid}')
+                        raise EXC[tid % len(EXC)](f'task{tid}')
                     elif res == 'n':
                         inval = yield 'str'
                     else:
@@ -269,7 +278,11 @@ class Case:
     def run_policy(self, dt, late):
         vt = self.vt
         T = vt.now + dt
+        budget = 20000
         while True:
+            budget -= 1
+            if budget < 0:
+                raise RuntimeError('SPIN: clock threads keep waking without making progress')
             ks = [k for k in self.order if self.rec_state(k) == 'notified']
             if ks:
                 vt.step(self.threads[ks[0]])
